@@ -47,6 +47,8 @@ def make_traj(Rs, ps, stamps=None, mode="se3", meta=None):
     mode 'se3': from pose matrices; 'quat': from positions + quaternions."""
     from evo.core.trajectory import PosePath3D, PoseTrajectory3D
     kw = {}
+    read = mode.endswith("+read")
+    mode = mode.split("+")[0]
     if mode == "se3":
         kw["poses_se3"] = [geom.pose(R, p) for R, p in zip(Rs, ps)]
     elif mode == "quat":
@@ -58,8 +60,13 @@ def make_traj(Rs, ps, stamps=None, mode="se3", meta=None):
     if meta is not None:
         kw["meta"] = meta
     if stamps is None:
-        return PosePath3D(**kw)
-    return PoseTrajectory3D(timestamps=np.array(stamps, dtype=float), **kw)
+        t = PosePath3D(**kw)
+    else:
+        t = PoseTrajectory3D(timestamps=np.array(stamps, dtype=float), **kw)
+    if read:
+        # populate every cached view (the state after e.g. a plot or check())
+        t.poses_se3, t.positions_xyz, t.orientations_quat_wxyz
+    return t
 
 
 def snapshot(traj):
